@@ -6,6 +6,7 @@ import (
 	"fmt"
 	"os"
 	"runtime"
+	"sort"
 	"strconv"
 	"strings"
 	"sync/atomic"
@@ -58,6 +59,11 @@ type runLine struct {
 	Replay     *ReplayFile `json:",omitempty"`
 	Sample     any         `json:",omitempty"`
 	Strategy   string
+	// Enum: this run is a site-triggered fault point of the base program of the same seed
+	Enum string `json:",omitempty"`
+	// EnumPoints / EnumTruncated: set on the base run of an enumeration
+	EnumPoints    int  `json:",omitempty"`
+	EnumTruncated bool `json:",omitempty"`
 }
 
 func envInt(name string, def int) int {
@@ -172,6 +178,161 @@ func TestSim(t *testing.T) {
 		}
 		if res.Internal != "" {
 			fmt.Println("INTERNAL", res.Internal)
+		}
+	}
+}
+
+// enumFaults lists the fault kinds that are placed at every profiled point for a profile.
+func enumFaults(profile string, cfg RunConfig, prog *Program) []Fault {
+	var out []Fault
+	switch profile {
+	case "C07":
+		for s := 0; s < cfg.NServers; s++ {
+			out = append(out, Fault{Kind: "crash", Srv: s, Mgr: -1}, Fault{Kind: "reset", Srv: s, Mgr: -1})
+		}
+	case "C10":
+		for s := 0; s < cfg.NServers; s++ {
+			out = append(out, Fault{Kind: "crash", Srv: s, Mgr: -1})
+		}
+	case "C12":
+		out = append(out, Fault{Kind: "close", Mgr: 0, K: 1}, Fault{Kind: "close", Mgr: 0, K: 2})
+	}
+	return out
+}
+
+// TestEnum is the worker entry point of the site-triggered fault enumeration: for every base
+// seed the program is run once with profiling on; then the same seed is re-run once per
+// (task role, scheduling site, k-th visit) x fault kind with that single fault armed there.
+func TestEnum(t *testing.T) {
+	profile := os.Getenv("SIM_PROFILE")
+	if profile == "" || os.Getenv("SIM_ENUM") == "" {
+		t.Skip("SIM_PROFILE / SIM_ENUM not set")
+	}
+	tier := os.Getenv("SIM_TIER")
+	if tier == "" {
+		tier = "quick"
+	}
+	seed0 := uint64(envInt("SIM_SEED0", 1))
+	count := envInt("SIM_COUNT", 1)
+	stride := uint64(envInt("SIM_STRIDE", 1))
+	budget := time.Duration(envInt("SIM_BUDGET_S", 0)) * time.Second
+	maxK := envInt("SIM_ENUM_K", 3)
+	maxPoints := envInt("SIM_ENUM_MAX", 400)
+	f, err := os.OpenFile(os.Getenv("SIM_OUT"), os.O_CREATE|os.O_WRONLY|os.O_APPEND, 0o644)
+	if err != nil {
+		t.Fatal(err)
+	}
+	defer f.Close()
+	out := bufio.NewWriter(f)
+	defer out.Flush()
+	emit := func(l runLine) {
+		b, _ := json.Marshal(l)
+		out.Write(b)
+		out.WriteByte('\n')
+		out.Flush()
+	}
+	t0 := time.Now()
+	var curSeed atomic.Uint64
+	var curStart atomic.Int64
+	var curPoint atomic.Value
+	curPoint.Store("base")
+	go func() { // wall-clock watchdog, outside any bubble
+		for {
+			time.Sleep(2 * time.Second)
+			st := curStart.Load()
+			if st != 0 && time.Since(time.Unix(0, st)) > time.Duration(envInt("SIM_RUN_WATCHDOG_S", 90))*time.Second {
+				fmt.Printf("WATCHDOG run of seed %d (point %v) exceeded the wall-clock limit\n", curSeed.Load(), curPoint.Load())
+				buf := make([]byte, 1<<20)
+				n := runtime.Stack(buf, true)
+				os.Stdout.Write(buf[:n])
+				os.Exit(3)
+			}
+		}
+	}()
+	mkReplay := func(seed uint64, cfg RunConfig, prog *Program, res *Result) *ReplayFile {
+		rf := &ReplayFile{Seed: seed, Profile: profile, Tier: tier, Mode: os.Getenv("SIM_MODE"), Config: cfg, Program: prog, Trace: res.Trace, LogHash: res.LogHash}
+		if len(res.Violations) > 0 {
+			v := res.Violations[0]
+			rf.Property, rf.Rule, rf.Key, rf.Detail = v.Property, v.Rule, v.Key, v.Detail
+		}
+		return rf
+	}
+	for i := 0; i < count; i++ {
+		if budget > 0 && time.Since(t0) > budget {
+			break
+		}
+		seed := seed0 + uint64(i)*stride
+		curSeed.Store(seed)
+		curPoint.Store("base")
+		curStart.Store(time.Now().UnixNano())
+		cfg, prog := Generate(seed, profile, tier)
+		// the base program keeps its planned faults; the enumerated fault is one more
+		base := Run(t, cfg, cloneProgram(prog), RunOptions{Profile: true})
+		hits, _ := base.Sample.(map[string]int)
+		var points []string
+		for k := range hits {
+			points = append(points, k)
+		}
+		sort.Strings(points)
+		kinds := enumFaults(profile, cfg, prog)
+		type pt struct {
+			role, site string
+			k          int
+			f          Fault
+		}
+		var all []pt
+		for _, rs := range points {
+			j := strings.IndexByte(rs, '@')
+			if j < 0 {
+				continue
+			}
+			role, site := rs[:j], rs[j+1:]
+			for k := 1; k <= hits[rs] && k <= maxK; k++ {
+				for _, fk := range kinds {
+					all = append(all, pt{role, site, k, fk})
+				}
+			}
+		}
+		bl := lineOf(base, cfg)
+		bl.EnumPoints = len(all)
+		if len(all) > maxPoints {
+			// deterministic thinning: keep every n-th point
+			bl.EnumTruncated = true
+			step := float64(len(all)) / float64(maxPoints)
+			var kept []pt
+			for x := 0.0; int(x) < len(all) && len(kept) < maxPoints; x += step {
+				kept = append(kept, all[int(x)])
+			}
+			all = kept
+			bl.EnumPoints = len(all)
+		}
+		if len(base.Violations) > 0 {
+			bl.Replay = mkReplay(seed, cfg, prog, base)
+		}
+		emit(bl)
+		for _, p := range all {
+			if budget > 0 && time.Since(t0) > budget {
+				break
+			}
+			curStart.Store(time.Now().UnixNano())
+			curPoint.Store(fmt.Sprintf("%s@%s#%d:%s/%d", p.role, p.site, p.k, p.f.Kind, p.f.Srv))
+			q := cloneProgram(prog)
+			nf := p.f
+			nf.Role, nf.Site = p.role, p.site
+			if nf.Kind == "close" {
+				// K is the number of concurrent Close invocations for close faults; the visit count is kept in AtVisit
+				nf.AtVisit = p.k
+			} else {
+				nf.K = p.k
+			}
+			q.Faults = append(q.Faults, &nf)
+			res := Run(t, cfg, cloneProgram(q), RunOptions{})
+			l := lineOf(res, cfg)
+			l.Enum = fmt.Sprintf("%s@%s#%d:%s", p.role, p.site, p.k, nf.Kind)
+			if len(res.Violations) > 0 {
+				l.Replay = mkReplay(seed, cfg, q, res)
+			}
+			emit(l)
 		}
 	}
 }
